@@ -36,7 +36,7 @@ ASSUMPTIONS = [
     "through a NIP-26 delegator or only at a since/until bound carry no must-deliver obligation",
 ]
 MIN_NONTRIVIAL = {"quick": 500, "thorough": 5000}
-REQUIRED_COUNTERS = ["e2e.e2e_reqs_answered", "e2e.e2e_completeness_obligations", "reqs_with_obligation", "events_owed", "tight_limits", "reqs_with_unmatchable_filter"]
+REQUIRED_COUNTERS = ["e2e.e2e_reqs_answered", "e2e.e2e_completeness_obligations", "e2e.e2e_paused_reader_events", "reqs_with_obligation", "events_owed", "tight_limits", "reqs_with_unmatchable_filter"]
 REQUIRED_COVERAGE = {
     "quick": ["lmdb_plans.IdIndex", "lmdb_plans.CreatedIndex", "lmdb_plans.KindIndex", "lmdb_plans.PubkeyIndex",
               "lmdb_plans.AuthorKindIndex", "lmdb_plans.TagIndex", "lmdb_plans.MultiIndex"],
@@ -54,7 +54,9 @@ def plan(tier, seed):
 def e2e_plan(tier, seed):
     """shards on a REAL server process tree (vf/e2e.py)"""
     out = [{"mode": "e2e", "e2e": "query", "backend": "sql", "workers": 2, "seed": seed }, {"mode": "e2e", "e2e": "query", "backend": "lmdb", "workers": 3, "seed": seed }]
+    out.append({"mode": "e2e", "e2e": "paused-reader", "backend": "sql" if seed % 2 == 0 else "lmdb", "seed": seed, "nevents": 160})
     if tier == "thorough":
+        out.append({"mode": "e2e", "e2e": "paused-reader", "backend": "lmdb" if seed % 2 == 0 else "sql", "seed": seed, "nevents": 240})
         out += [{"mode": "e2e", "e2e": "query", "backend": b, "workers": w, "seed": seed + 10 + w, "nreqs": 150} for b in ("sql", "lmdb") for w in (2, 4)]
     return out
 
